@@ -140,6 +140,8 @@ pub(crate) fn remove_or_compress_too_old_logfiles_impl(
             .cloned()
             .collect();
         for leftover in leftovers {
+            #[cfg(flexi_logger_verif)]
+            crate::verif_hooks::fs_point("cleanup_remove", &leftover)?;
             std::fs::remove_file(&leftover)?;
             files.retain(|file| *file != leftover);
         }
